@@ -9,6 +9,7 @@
 -/
 import TealerModel.Lemmas.Dfs
 import TealerModel.Props.Common
+import TealerModel.Lemmas.Asserted
 namespace Tealer.C01
 
 /-- a context that admits a fresh address in RekeyTo is not "validated" by rekey-to -/
@@ -75,6 +76,40 @@ theorem C01_search_complete (g : DGraph) (entry : Nat) (main : String) (rest : L
     (h : searchPaths g fuel entry [] [(none, main)] [[]] = some ps) : ps ≠ [] := by
   have := Dfs.searchPaths_complete g _ _ _ _ hw fuel [] ps hf h
   intro he; subst he; cases this
+
+/-- condition layer: for each of the four analyses, `_get_asserted` (And / Or / Not combination with flattening and unknown
+    operands) is sound whenever the leaf matcher is: a condition that evaluates to non-zero puts the governed value in
+    γ(true set), one that evaluates to zero in γ(false set); an unknown operand may take either truth value -/
+theorem C01_condition_sound_fee (ic : Option (List Nat)) (a : Ast) (lv : Nat → Bool) (key : Key) (fee : Nat)
+    (hfee : fee ≤ MAX_UINT64)
+    (hs : ∀ p, (lv p = true → Fee.gamma (feeAnalysis.single ic a key p).1 fee) ∧ (lv p = false → Fee.gamma (feeAnalysis.single ic a key p).2 fee))
+    (n p o : Nat) (b : Bool) (h : Asserted.Eval a lv (some (p, o)) b) :
+    (b = true → Fee.gamma (getAsserted feeAnalysis ic a key n p).1 fee) ∧
+    (b = false → Fee.gamma (getAsserted feeAnalysis ic a key n p).2 fee) :=
+  Asserted.getAsserted_sound feeLaws ic key fee (Fee.univ_top fee hfee) hs n p o b h
+
+theorem C01_condition_sound_sets (ic : Option (List Nat)) (a : Ast) (lv : Nat → Bool) (key : Key) (v : Nat)
+    (hv : v ∈ groupIndicesAnalysis.univ key.base)
+    (hs : ∀ p, (lv p = true → v ∈ (groupIndicesAnalysis.single ic a key p).1) ∧ (lv p = false → v ∈ (groupIndicesAnalysis.single ic a key p).2))
+    (n p o : Nat) (b : Bool) (h : Asserted.Eval a lv (some (p, o)) b) :
+    (b = true → v ∈ (getAsserted groupIndicesAnalysis ic a key n p).1) ∧
+    (b = false → v ∈ (getAsserted groupIndicesAnalysis ic a key n p).2) :=
+  Asserted.getAsserted_sound groupIndicesLaws ic key v hv hs n p o b h
+
+theorem C01_condition_sound_addr (ic : Option (List Nat)) (a : Ast) (lv : Nat → Bool) (key : Key) (x : String)
+    (hs : ∀ p, (lv p = true → Addr.gamma (addrAnalysis.single ic a key p).1 x) ∧ (lv p = false → Addr.gamma (addrAnalysis.single ic a key p).2 x))
+    (n p o : Nat) (b : Bool) (h : Asserted.Eval a lv (some (p, o)) b) :
+    (b = true → Addr.gamma (getAsserted addrAnalysis ic a key n p).1 x) ∧
+    (b = false → Addr.gamma (getAsserted addrAnalysis ic a key n p).2 x) :=
+  Asserted.getAsserted_sound addrLaws ic key x (Addr.univ_top x) hs n p o b h
+
+/-- flow layer for the fee analysis, composed with the solver: what `solveFwd` returns bounds every approvable fee along an
+    accepting trace (the same statement holds for the other three analyses through `solver_forward_sound`) -/
+theorem C01_solver_forward_sound_fee (g : Graph) (bc : Nat → FeeValue) (pc : Nat → Nat → FeeValue)
+    (hwf : Solver.fwdWF g = true) (r : List (Nat × FeeValue)) (h : solveFwd feeAnalysis g feeUniv bc pc = some r)
+    (fee : Nat) (tr : List Nat) (ht : Flow.FwdTrace g Fee.gamma feeUniv bc pc fee tr) (hkeys : ∀ b ∈ tr, b ∈ g.keys) :
+    ∀ i, i < tr.length → Fee.gamma (getMap r tr[i]! feeNull) fee :=
+  solver_forward_sound feeLaws g feeUniv bc pc hwf r h fee tr ht hkeys
 
 example : checksField .feeCheck { maxFee := 1000 } = true ∧ checksField .feeCheck {} = false := by decide
 
